@@ -48,7 +48,8 @@ def programs(tier):
         names = [n for n in names if n not in ("nonascii-string-same-line", "lambda-shadow")]
         subsets = [c for r in (1, 2) for c in itertools.combinations(names, r)]
     else:
-        subsets = [c for r in range(1, len(names) + 1) for c in itertools.combinations(names, r)]
+        # every subset of <= 3 fragments (a rename request costs a server session, ~2.5 s: all 511 subsets would be ~10 000 sessions)
+        subsets = [c for r in (1, 2, 3) for c in itertools.combinations(names, r)]
     for sub in subsets:
         lines = list(HEAD)
         for n in sub:
